@@ -26,7 +26,7 @@ Definition cell_typed (str : bool) (v : value) : Prop :=
   match v with VStr _ => str = true | VNum _ => str = false end.
 
 Definition arr_ok (name : bytes) (a : arr) : Prop :=
-  ar_dims a <> []
+  (ar_dims a <> [] /\ Forall (fun d => (1 <= d)%N) (ar_dims a))
   /\ N.of_nat (length (ar_cells a)) = fold_right N.mul 1%N (ar_dims a)
   /\ (N.of_nat (length (ar_cells a)) <= MAX_DIM_TOTAL_ELEMENTS)%N
   /\ ar_str a = ends_with_dollar name
@@ -396,7 +396,7 @@ Proof.
         [reflexivity|].
       eexists; split; [reflexivity|]. split; [|reflexivity].
       unfold arr_ok; cbn [ar_dims ar_cells ar_str]. rewrite repeat_length, N2Nat.id.
-      split; [subst idx; discriminate|]. split; [reflexivity|]. split; [exact Hle|].
+      split; [split; [subst idx; discriminate|exact Hpos]|]. split; [reflexivity|]. split; [exact Hle|].
       split; [reflexivity|]. apply Forall_forall. intros x Hx. apply repeat_spec in Hx. subst x.
       destruct (ends_with_dollar name); reflexivity.
     + rewrite N.mul_1_l in Hcp.
